@@ -357,7 +357,7 @@ func checkC17(c *Check) {
 		c.Fail("R7", "loops", token.NoPos, "undecided: no function that ranges over the characters of an address was found")
 	}
 	c17EscapeState(c)
-	noTransitionalIDNA(c, "R10", []string{"framework/address", "framework/dns"})
+	noTransitionalIDNA(c, "R10", nil)
 	c17LowerASCIITotal(c, "R11")
 	c17WholeCharacterCopied(c, "R12")
 }
@@ -1067,5 +1067,53 @@ func lowersASCIIBody(info *types.Info, body ast.Node) bool {
 		}
 		return true
 	})
-	return hasA && hasZ && hasDelta
+	if hasA && hasZ && hasDelta {
+		return true
+	}
+	// the mapping may be a named function (`strings.Map(lowerASCIIRune, s)`) or sit one helper down
+	return lowersASCIIVia(info, body, 0)
+}
+
+func lowersASCIIVia(info *types.Info, body ast.Node, depth int) bool {
+	if depth > 2 || theProg == nil {
+		return false
+	}
+	found := false
+	ast.Inspect(body, func(x ast.Node) bool {
+		id, ok := x.(*ast.Ident)
+		if !ok || found {
+			return !found
+		}
+		fn, isFn := info.Uses[id].(*types.Func)
+		if !isFn || fn.Pkg() == nil || !strings.HasPrefix(fn.Pkg().Path(), modPath) {
+			return true
+		}
+		d := theProg.DeclOf(fn)
+		if d == nil || d.Decl.Body == nil || d.Decl.Body == body {
+			return true
+		}
+		hasA, hasZ, hasDelta := false, false, false
+		ast.Inspect(d.Decl.Body, func(y ast.Node) bool {
+			if e, ok := y.(ast.Expr); ok {
+				if tv, has := d.Info().Types[e]; has && tv.Value != nil {
+					if n, isInt := constInt(tv); isInt {
+						switch n {
+						case 'A':
+							hasA = true
+						case 'Z':
+							hasZ = true
+						case 'a' - 'A':
+							hasDelta = true
+						}
+					}
+				}
+			}
+			return true
+		})
+		if (hasA && hasZ && hasDelta) || lowersASCIIVia(d.Info(), d.Decl.Body, depth+1) {
+			found = true
+		}
+		return !found
+	})
+	return found
 }
